@@ -168,6 +168,26 @@ func (p *Path) callMarker(th *thread, caller *frame, pos token.Pos, mc *markerCa
 		orig := bytesOf(st[1])
 		p.lzwSeq++
 		n := 2
+		if p.lzwSizes {
+			// size-aware model (opt-in): the compressed length is any of a few classes around the input length -
+			// far smaller, smaller by more / exactly / less than the 16 bytes a compress{} wrapper costs, equal, larger
+			in := len(orig)
+			var cls []int
+			for _, c := range []int{2, in - 17, in - 16, in - 10, in - 1, in, in + 4} {
+				if c < 2 {
+					continue
+				}
+				dup := false
+				for _, x := range cls {
+					dup = dup || x == c
+				}
+				if !dup {
+					cls = append(cls, c)
+				}
+			}
+			n = cls[p.choose(len(cls))]
+			p.note("stub: compress/lzw size-aware model: compressed length in {2, n-17, n-16, n-10, n-1, n, n+4} for an n-byte input")
+		}
 		tok := make([]*Term, n)
 		for i := range tok {
 			tok[i] = Var(fmt.Sprintf("lzw%d_%d", p.lzwSeq, i), 8)
